@@ -15,7 +15,80 @@ LEVEL_NOTE_COMMON = (
 )
 
 # property -> (claim text, partial clauses / what is implementation-side only, design ref)
+KERNEL_NOTE = ("The kernel model (lean/AsphaltModel/Context.lean) treats the code between two checkpoints as one atomic step; "
+               "the only operation spanning a checkpoint (a lookup through a suspended async factory) is split into begin/finish "
+               "steps, and which waiting lookup runs first is taken from the observation (the model accepts any waiter). "
+               "Correspondence: a director executes generated operation sequences (several tasks, both anyio back-ends, "
+               "virtual clocks) on the real asphalt one atomic step at a time and requires the same outputs, events and "
+               "teardown traces as the model after every step. ")
+
 CLAIMS = {
+    "C01": (
+        "Theorems C01_exactly_once, C01_lifo_and_argument, C01_all_finish, C01_one_at_a_time, C01_all_collected, C01_frame, "
+        "C01_route_add/_direct, C01_outcome_group/_normal/_own, C01_closed_afterwards hold for all callback stacks (any number, "
+        "any nesting of registrations during teardown, any subset raising any exception class, sync/async, with/without "
+        "pass_exception) and all block endings by return or exception, about the Lean function `runTeardown` and the exit "
+        "step. " + KERNEL_NOTE,
+        "Partial: cancellation of the block (delivered at a checkpoint) and real suspension of async callbacks are not in "
+        "the model (anyio level-cancellation semantics): not generated, not claimed. The Python class of the exception "
+        "group and sys.exc_info() inside __aexit__ are implementation-side.",
+        "8/C01",
+    ),
+    "C02": (
+        "Theorems C02_snapshot, C02_frame, C02_frame_run, C02_inherits_static, C02_inherits_nothing_else, C02_reswf, "
+        "C02_get_all_agrees hold for all worlds / histories / context trees about the kernel model: a new context starts "
+        "with the parent's static resources and factories, and no operation changes the content of any context other than "
+        "the one it works on. " + KERNEL_NOTE,
+        "Partial: ComponentContext delegation is covered by the start-up checks (C05/C06/C14), not by the kernel model.",
+        "8/C02",
+    ),
+    "C03": (
+        "Theorems C03_functional (tables functional in every reachable world), C03_stable / C03_stable_factory (nothing is "
+        "ever replaced or removed, for every operation in every world), C03_lookup_registered, C03_conflict(_factory), "
+        "C03_failed_add(_factory)_noop, C03_failed_add_world, C03_add_registers, C03_generation_keeps_existing. " + KERNEL_NOTE,
+        "Written for the behaviour after the fix: commits for D3 and D5 (known_findings.json).",
+        "8/C03",
+    ),
+    "C04": (
+        "Theorems C04_once (at most one completed generation per (context, factory) in every reachable world, by the invariant "
+        "KInv), C04_facwf, C04_async_via_sync, C04_generates_all_types(_async), C04_not_inherited, C04_child_has_factory, "
+        "C04_distinct_objects, C04_race_waits, C04_scoped. " + KERNEL_NOTE,
+        "Written for the behaviour after the fix: commits for D1, D2, D3. Lookups still suspended when their context is closed "
+        "are outside the statement and only compared with the model.",
+        "8/C04",
+    ),
+    "C12": (
+        "Theorems C12_enter, C12_exit, C12_current, C12_noninterference, C12_token_stable, C12_open_stable, C12_restore (over "
+        "any history of other tasks' operations), C12_nested, C12_parent_default, C12_inherit. " + KERNEL_NOTE,
+        "Partial: task-locality is contextvars' semantics; in the model it holds by construction, so the weight is on the "
+        "correspondence (several worker tasks sampling current_context()). Leaving by cancellation is not generated. The "
+        "component-context clause is checked by the start-up correspondence (C05).",
+        "8/C12",
+    ),
+    "C13": (
+        "The state x operation matrix as theorems: C13_guard_add / _get_nowait / _get / _teardown_callback / _add_factory, "
+        "C13_closing_allowed, C13_enter_once, C13_enter_opens, C13_closed_flag, C13_state_during_teardown, "
+        "C13_closed_after_exit, C13_children_reported, C13_child_registered. The correspondence enumerates the whole matrix "
+        "on both back-ends in both tiers. " + KERNEL_NOTE,
+        "The roll-back to inactive after a failing __aenter__ has no trigger from the public API: not exercised.",
+        "8/C13",
+    ),
+    "C18": (
+        "Theorems C18_add, C18_add_factory, C18_lookup_silent, C18_generation, C18_log_sound_get, C18_generated_event, "
+        "C18_elsewhere, C18_outputs_local about the ghost log of every context's resource_added signal. The correspondence "
+        "attaches a listener to every context from its creation. " + KERNEL_NOTE,
+        "That a dispatched event reaches the listeners is C10's statement.",
+        "8/C18",
+    ),
+    "C19": (
+        "Theorems C19_equiv_world (an injected call leaves the world exactly as the explicit lookups would), C19_called_iff, "
+        "C19_binds_lookup_result, C19_optional_none, C19_missing, C19_no_current, C19_reject_posonly / _unannotated / "
+        "_uncalled, C19_accept. The correspondence generates functions as source text (all annotation forms, sync/async) and "
+        "calls them through the real @inject. " + KERNEL_NOTE,
+        "Partial: annotation resolution (get_type_hints, forward references, PEP 604) is Python's; the model receives the "
+        "resolved (type, name, optional) triples.",
+        "8/C19",
+    ),
     "C14": (
         "Theorems C14_root_inv / C14_children_inv (what every constructor receives and in which order), C14_child_config / "
         "C14_child_order / C14_no_external (hard-coded add_component kwargs deep-merged with and overridden by the external "
